@@ -152,3 +152,64 @@ where
 {
   cache.shared.metrics.current_cost.load(Ordering::Relaxed)
 }
+
+// ---------------------------------------------------------------------------------------------
+// H3 (cache part): the places where a cache thread blocks or creates a thread outside the hybrid
+// locks report to an external scheduler, if one is installed: `thread::park` in
+// `load_value_blocking`, `Thread::unpark` in `LoadFuture::complete`, and the sync loader's
+// `thread::spawn`. With no scheduler installed they behave exactly as in production.
+pub struct SchedHooks {
+  /// called instead of `thread::park()`
+  pub park: fn(),
+  /// called just before `Thread::unpark()` of that thread
+  pub unpark: fn(std::thread::ThreadId),
+  /// the calling thread is about to spawn a thread; returns a token for the child
+  pub spawn_announce: fn() -> usize,
+  /// first / last thing the spawned thread does
+  pub child_enter: fn(usize),
+  pub child_exit: fn(),
+}
+
+static SCHED: std::sync::atomic::AtomicPtr<SchedHooks> = std::sync::atomic::AtomicPtr::new(std::ptr::null_mut());
+
+pub fn set_sched_hooks(h: Option<&'static SchedHooks>) {
+  SCHED.store(
+    h.map_or(std::ptr::null_mut(), |r| r as *const SchedHooks as *mut SchedHooks),
+    Ordering::SeqCst,
+  );
+}
+fn sched() -> Option<&'static SchedHooks> {
+  let p = SCHED.load(Ordering::SeqCst);
+  if p.is_null() { None } else { Some(unsafe { &*p }) }
+}
+pub(crate) fn sched_park() {
+  match sched() {
+    Some(h) => (h.park)(),
+    None => std::thread::park(),
+  }
+}
+pub(crate) fn sched_unpark(t: &std::thread::Thread) {
+  if let Some(h) = sched() {
+    (h.unpark)(t.id());
+  }
+}
+pub(crate) fn spawn_announce() -> usize {
+  sched().map_or(0, |h| (h.spawn_announce)())
+}
+/// Brackets the body of a thread the cache spawned.
+pub(crate) struct ChildGuard;
+impl ChildGuard {
+  pub(crate) fn enter(token: usize) -> ChildGuard {
+    if let Some(h) = sched() {
+      (h.child_enter)(token);
+    }
+    ChildGuard
+  }
+}
+impl Drop for ChildGuard {
+  fn drop(&mut self) {
+    if let Some(h) = sched() {
+      (h.child_exit)();
+    }
+  }
+}
